@@ -257,7 +257,8 @@ func paging(i int, emit func(rec)) {
 		}
 	}
 	if rng.Intn(8) == 0 {
-		n = u64()
+		// any list length a Go slice can have (len is an int): n <= 2^63-1
+		n = u64() >> 1
 	}
 	var start, end, total uint64
 	var err error
